@@ -37,7 +37,15 @@ def words_for(sch):
     w.insert(len(w) - 7, b'"a\\\nb"')
     w.insert(len(w) - 7, b'"a\n\\9"')
     w.insert(len(w) - 7, b"'a\nb")
+    w.insert(len(w) - 7, b'""')
     return w
+
+
+REDUCED = {}
+
+
+def reduced_words(sch):
+    return [n for n in sch.all_names()] + [b'7', b't1', b'=', b'+=', b'{', b'}', b'zz']
 
 
 def layout_text(words, seps, trail):
@@ -105,8 +113,9 @@ def shard_layout(shard):
     sch = FAM[sid]
     drv = get_driver('asan')
     drv.define_schema(sid, sch.spec())
-    st = ShardStats('E1 N=%d, %d layout deviations' % (N, dev))
-    alpha = words_for(sch)
+    st = ShardStats('E1 N=%d, %d layout deviations' % (N % 100, dev))
+    alpha = reduced_words(sch) if N >= 100 else words_for(sch)
+    N = N % 100
     buf = []
 
     def flush():
@@ -245,8 +254,20 @@ def main():
     engine.build(['asan'])
     quick = ck.tier == 'quick'
     dl = ck.deadline
-    plan = [(4, 1), (5, 1), (6, 0), ('inc', 4), (4, 2)] if quick else [(5, 1), (6, 1), ('inc', 5), (5, 2), (7, 0), (7, 1), (6, 2)]
+    plan = [(4, 1), (5, 1), (6, 0), ('inc', 4), ('deep', 7), (4, 2)] if quick else [(5, 1), (6, 1), ('inc', 5), ('deep', 9), (5, 2), (7, 0), (7, 1), (6, 2)]
     for (N, dev) in plan:
+        if N == 'deep':
+            # reduced alphabet, deeper: errors that need a whole section first (duplicate titles, errors after a closed section)
+            shards = []
+            for sid in ('F05', 'F07', 'F08', 'F11', 'F16', 'F06'):
+                sch = FAM[sid]
+                alpha = reduced_words(sch)
+                inner, frontier = viable_prefix_words(sch, 0, alpha, 3)
+                shards.append((sid, 0, 100, 1, inner, dl))
+                for ch in engine.chunks(frontier, 2):
+                    shards.append((sid, 0, 100 + dev, 1, ch, dl))
+            engine.phase(ck, 'E1 reduced alphabet N=%d x 1 layout deviation' % dev, shard_layout, shards, schemas=6)
+            continue
         if N == 'inc':
             sch = FAM['I1']
             alpha = [w for w in words_for(sch) if w not in (b'include', b'(', b')')]
@@ -259,7 +280,7 @@ def main():
             engine.phase(ck, 'E1 N=%d inside and after included files (depth 1, 2; sections re-entered from another source)' % dev, shard_include, shards, variants=9)
             continue
         shards = []
-        for sid in USE:
+        for sid in (USE if not (quick and dev >= 2) else USE[:6]):
             sch = FAM[sid]
             alpha = words_for(sch)
             for flags in ((0, CFGF['COMMENTS']) if dev <= 1 else (0,)):
